@@ -68,6 +68,10 @@ type Job struct {
 	// realistic run, e.g. through a convergence loop, instead of along the
 	// first-listed sides.
 	Follow string `json:"follow,omitempty"`
+	// Terminates (with Follow): the followed run must end within the step
+	// bound; if it does not, a counterexample with this label and the followed
+	// inputs is reported (the native replay confirms it by timing out)
+	Terminates string `json:"terminates,omitempty"`
 }
 
 type Obligation struct {
@@ -1194,6 +1198,24 @@ func (in *Interp) RunJob(job Job) *JobRes {
 		}
 		pr := in.runPath(fn, args, prefix, id)
 		res.Paths = append(res.Paths, pr)
+		if id == 0 && job.Terminates != "" && in.followEnv != nil && pr.Outcome == "unwind" &&
+			(strings.HasPrefix(pr.Msg, "step bound") || strings.HasPrefix(pr.Msg, "decision bound")) && in.followHolds() {
+			ob := Obligation{Label: job.Terminates, Path: id, Status: "candidate", Tier: "follow-eval",
+				Note: "the followed run did not end within the bound: " + pr.Msg, Model: map[string]string{}}
+			for _, iv := range in.inputs {
+				if val, ok := in.followEnv[iv.Name]; ok {
+					switch iv.Sort.K {
+					case term.KBool:
+						ob.Model[iv.Name] = fmt.Sprint(val.B)
+					case term.KInt:
+						ob.Model[iv.Name] = fmt.Sprint(term.UintC(iv.Sort, val.I).Int())
+					default:
+						ob.Model[iv.Name] = fmt.Sprintf("f:%x", math.Float64bits(val.F))
+					}
+				}
+			}
+			res.Obligations = append(res.Obligations, ob)
+		}
 		id++
 	}
 	res.Forks = in.forks
